@@ -140,6 +140,12 @@ def run(rep):
     for ch in ELEMENT_NAME_CHANNELS:
         for cls, tok in {**NAME_TOKENS, **EDGE_TOKENS}.items():
             jobs.append({"wb": name_form(ch, tok), "fmt": "dict", "parts": ("c01",), "tag": {"name_channel": ch, "token": cls}})
+    # values of the namespaces setting: empty URIs, reserved prefixes, the same prefix twice, URIs with blanks / metacharacters
+    for i, ns in enumerate(['foo=""', "foo=", 'xmlns="http://x.y/z"', 'xml="http://x.y/z"', "foo='http://a' foo='http://b'", 'foo="http://a b"', 'foo="http://a&b<c"',
+                            'foo="http://a" bar="http://a"', "=http://a", 'foo="http://a"=x', 'xml="http://www.w3.org/XML/1998/namespace"', 'h="http://other"', 'odk="urn:x"']):
+        wbx = {"sheets": [{"name": "survey", "header": ["type", "name", "label", "bind::foo:a"], "rows": [["text", "q1", "Q1", "v" if ns.startswith("foo=") else None]]},
+                          {"name": "settings", "header": ["namespaces"], "rows": [[ns]]}]}
+        jobs.append({"wb": wbx, "fmt": "dict", "parts": ("c01",), "tag": {"namespaces_value": i}})
     for ch in TEXT_CHANNELS:
         for cls, text in TEXT_TOKENS.items():
             jobs.append({"wb": text_form(ch, text), "fmt": "dict", "parts": ("c01",), "tag": {"text_channel": ch, "token": cls}})
